@@ -41,7 +41,7 @@ FP_FILE = os.path.join(HERE, "fingerprints", "c16.json")
 # 1. source fingerprints
 # ------------------------------------------------------------------------------------------------------------------
 UNITS = {
-    "predicate/this_predicate.py": ["ThisPredicate", "find_this_predicate", "predicate_in_predicate_tree"],
+    "predicate/this_predicate.py": ["ThisPredicate", "find_this_predicate", "is_library_frame", "predicate_in_predicate_tree"],
     "predicate/root_predicate.py": ["RootPredicate", "find_root_predicate", "get_frames"],
     "predicate/lazy_predicate.py": ["LazyPredicate", "find_predicate_by_ref"],
     "predicate/all_predicate.py": ["AllPredicate"],
@@ -242,6 +242,24 @@ def configs() -> list:
             cs.append(C(f"{kn}/beyond_small_bounds/module_level_name_{nm}",
                         [("m", HDR + f"{dfn(k, nm)}\nfor x in XS:\n    @CALL P ;; {nm} ;; x\n")], {"P": S}))
         cs.append(C(f"{kn}/beyond_small_bounds/deeply_nested_values", [("m", HDR + f"def cfg():\n    {dfn(k)}\n    for x in XS:\n        @CALL P ;; P ;; x\ncfg()\n")], {"P": S}))
+    # the reference is first reached from inside the library's tuple_of / dict_of frames, whose loop variables (p, key_p, value_p) are
+    # predicate-valued and contain it (D27, repaired): the meaning of P must not depend on that (search only: not terms of the model)
+    I_ = "rec(is_int)"
+    for k in "TRL":
+        kn = KIND_NAME[k]
+        for nm in ("P", "p", "key_p", "value_p"):
+            d_ = dfn(k, nm, base="is_int_p")
+            cs.append(C(f"{kn}/library_composite_frames/first_called_below_is_tuple_of_p/{nm}",
+                        [("m", HDR + f"def cfg():\n    {d_}\n    for x in XS:\n        @CALL T ;; is_tuple_of_p(is_str_p, is_list_of_p({nm})) ;; ('n', x)\n"
+                                     f"        @CALL P ;; {nm} ;; x\ncfg()\n")],
+                        {"T": "lambda t: is_list(t[1]) and all(rec(is_int)(i) for i in t[1])", "P": I_}))
+            cs.append(C(f"{kn}/library_composite_frames/first_called_below_is_dict_of_p/{nm}",
+                        [("m", HDR + f"def cfg():\n    {d_}\n    for x in XS:\n        @CALL D ;; is_dict_of_p(('k', is_list_of_p({nm}))) ;; {{'k': x}}\n"
+                                     f"        @CALL P ;; {nm} ;; x\ncfg()\n")],
+                        {"D": "lambda d: is_list(d['k']) and all(rec(is_int)(i) for i in d['k'])", "P": I_}))
+        cs.append(C(f"{kn}/library_composite_frames/direct_component_of_is_tuple_of_p",
+                    [("m", HDR + f"def cfg():\n    {dfn(k, 'P', base='is_int_p')}\n    for x in XS:\n        @CALL T ;; is_tuple_of_p(is_str_p, P) ;; ('n', x)\n"
+                                 f"        @CALL P ;; P ;; x\ncfg()\n")], {"T": "lambda t: rec(is_int)(t[1])", "P": I_}))
     # the library's own tests' shapes
     cs.append(C("this_p/or_inside_list", [("m", HDR + "def cfg():\n    P = is_str_p | is_list_of_p(this_p | is_int_p)\n    for x in XS:\n        @CALL P ;; P ;; x\ncfg()\n")], {"P": "rec(is_str, is_int)"}))
     cs.append(C("this_p/used_inside_larger_predicate", [("m", HDR + "def cfg():\n    P = is_str_p | is_list_of_p(this_p)\n    Q = P | is_int_p\n    for x in XS:\n        @CALL Q ;; Q ;; x\ncfg()\n")], {"Q": "lambda x: rec(is_str)(x) or is_int(x)"}))
@@ -520,7 +538,8 @@ class Rec:
             items = list(frame.f_locals.items())
             txt = "[" + "; ".join(f"({cstr(k)}, {self.eobj(v)})" for k, v in items) + "]"
             choices += sum(1 for k, v in items if k != "self" and isinstance(v, _PP.Predicate) and self.has_ref(v))
-            ids.append(self.pool.frame(txt))
+            # (runs the library's own code?, f_locals): the flag is what the finders' is_library_frame() reads
+            ids.append((str(frame.f_globals.get("__name__", "")).startswith("predicate."), self.pool.frame(txt)))
             frame = frame.f_back
         return self.pool.stack(ids), choices, ids
 
@@ -640,7 +659,7 @@ class Pool:
 
     def text(self):
         out = [f"Definition fr{i} : frame := {t}." for t, i in self.frames.items()]
-        out += [f"Definition st{j} : stack := [{'; '.join(f'fr{i}' for i in ids)}]." for ids, j in self.stacks.items()]
+        out += [f"Definition st{j} : stack := user_frames [{'; '.join(f'({str(lib).lower()}, fr{i})' for lib, i in ids)}]." for ids, j in self.stacks.items()]
         return "\n".join(out)
 
 
@@ -782,7 +801,7 @@ def record_configs(cfgs, xs_of):
 
 def correspondence(payload):
     mism = fingerprint_mismatches()
-    cfgs = [c for c in configs() if "analysed_before_first_call" not in c["name"] and "beyond_small_bounds" not in c["name"]] + JSON_CONFIGS   # (those run library functions whose frames the model does not have: search only)
+    cfgs = [c for c in configs() if "analysed_before_first_call" not in c["name"] and "beyond_small_bounds" not in c["name"] and "library_composite_frames" not in c["name"]] + JSON_CONFIGS   # (those run library functions whose frames the model does not have: search only)
     rng = rng_of(payload)
     more = payload.get("tier") == "thorough" or payload.get("deep")
     xs_model = XS_MODEL + [random_nested(rng, ["a", "b", 1, None], 3, 3) for _ in range(30 if more else 4)]
@@ -883,6 +902,8 @@ def search(payload):
     for ci, cfg in enumerate(cfgs):
         xs = list(full if (deep or cfg["name"].endswith("/alone") or "other_recursive" in cfg["name"]) else base)
         xs += [random_nested(rng, leaves + [None, 2.5], 3, 3) for _ in range(1500 if deep else 150)]
+        if "library_composite_frames" in cfg["name"]:
+            xs = [[1, [2]], [1], [[1]], 1, ["a"], [1, ["a"]], [], [[], [3, [4]]]]        # NOT shuffled below would be better: the first call decides what is cached
         if "beyond_small_bounds" in cfg["name"]:
             xs = [["a"], [1], "a", ["a", ["b"]], ["a", [2]], [], [["a", []], "b"], [[1]]]
         if cfg["name"].endswith("deeply_nested_values"):
